@@ -203,6 +203,9 @@ func zero(t types.Type) value {
 		}
 		return a
 	case *types.Named:
+		if isReflValueType(t) {
+			return reflVal{}
+		}
 		return zero(t.Underlying())
 	case *types.Alias:
 		return zero(types.Unalias(t))
